@@ -338,15 +338,18 @@ def havoc(ex, st, irty, ast_t, addr, src, build=True):
     structure choices are consumed (used to enumerate profiles)"""
     ast_t = W.strip(ast_t)
     if isinstance(ast_t, W.Scalar):
+        v = None
         if build:
-            _write_bits(ex, st, addr, src.fresh(8 * ast_t.size))
-        return
+            v = src.fresh(8 * ast_t.size)
+            _write_bits(ex, st, addr, v)
+        return v
     if isinstance(ast_t, W.Enum):
+        v = None
         if build:
             v = src.fresh(32)
             src.constraints.append(z3.Or(*[v == (m[1] & 0xFFFFFFFF) for m in ast_t.members]))
             _write_bits(ex, st, addr, v)
-        return
+        return v
     if isinstance(ast_t, W.Union):
         d = src.choice(len(ast_t.arms))
         mem = _members(ex, irty, ast_t.name, ['discriminator'] + [a[1] for a in ast_t.arms]) if build else None
@@ -357,10 +360,11 @@ def havoc(ex, st, irty, ast_t, addr, src, build=True):
         arm_t = ast_t.arms[d][2]
         if build:
             off, ety = mem[d + 1]
-            havoc(ex, st, ety, arm_t, addr + off, src)
+            sub = havoc(ex, st, ety, arm_t, addr + off, src)
         else:
-            havoc(ex, st, None, arm_t, 0, src, build=False)
-        return
+            sub = havoc(ex, st, None, arm_t, 0, src, build=False)
+        return (ast_t.arms[d][1], sub)
+    out = {}
     sizers = W.sizer_names(ast_t)
     fields = [f for f in ast_t.fields if f.name not in sizers]
     mem = _members(ex, irty, ast_t.name, [f.name for f in fields]) if build else [(0, None)] * len(fields)
@@ -372,9 +376,10 @@ def havoc(ex, st, irty, ast_t, addr, src, build=True):
         form = f.form
         et = W.SC['u8'] if f.bytes else f.type
         if form == 'plain':
-            havoc(ex, st, ety, et, a, src, build)
+            out[f.name] = havoc(ex, st, ety, et, a, src, build)
         elif form == 'optional':
             p = src.bool()
+            out[f.name] = None
             if build:
                 ot = L.res(ety)
                 while isinstance(ot, L.StructTy) and len(ot.elems) == 1:
@@ -384,10 +389,11 @@ def havoc(ex, st, irty, ast_t, addr, src, build=True):
                 if p:
                     # storage is a union wrapper around the value type
                     stt = ot.elems[1]
-                    havoc_storage(ex, st, stt, et, a + offs[1], src)
+                    out[f.name] = havoc_storage(ex, st, stt, et, a + offs[1], src)
             elif p:
                 havoc(ex, st, None, et, 0, src, build=False)
         elif form[0] == 'fixed':
+            out[f.name] = []
             if build:
                 at = L.res(ety)
                 while isinstance(at, L.StructTy) and len(at.elems) == 1:
@@ -396,8 +402,9 @@ def havoc(ex, st, irty, ast_t, addr, src, build=True):
                     raise L.Unsupported('fixed array layout')
                 es = L.size_of(at.el)
             for k in range(form[1]):
-                havoc(ex, st, at.el if build else None, et, (a + k * es) if build else 0, src, build)
+                out[f.name].append(havoc(ex, st, at.el if build else None, et, (a + k * es) if build else 0, src, build))
         else:
+            out[f.name] = []
             if form[0] == 'ext':
                 if form[1] not in ext_len:
                     ext_len[form[1]] = src.length(obj_len_choices(f))
@@ -417,20 +424,20 @@ def havoc(ex, st, irty, ast_t, addr, src, build=True):
                         _write_bits(ex, st, a + 8 * k, z3.BitVecVal(p_, 64))
                         st.ptrshadow[a + 8 * k] = o.oid
                     for k in range(n):
-                        havoc(ex, st, elt, et, o.base + k * es, src)
+                        out[f.name].append(havoc(ex, st, elt, et, o.base + k * es, src))
             else:
                 for k in range(n):
                     havoc(ex, st, None, et, 0, src, build=False)
+    return out
 
 
 def havoc_storage(ex, st, stt, et, addr, src):
     """optional's aligned_storage: a union/struct wrapper whose first byte is the value"""
     et_ = W.strip(et)
     if isinstance(et_, (W.Scalar, W.Enum)):
-        havoc(ex, st, None, et_, addr, src)
-    else:
-        # composite value: its IR type is not reachable through the storage wrapper, look it up by name
-        havoc(ex, st, ex.mod.types['%"struct.prophy::generated::' + et_.name + '"'], et_, addr, src)
+        return havoc(ex, st, None, et_, addr, src)
+    # composite value: its IR type is not reachable through the storage wrapper, look it up by name
+    return havoc(ex, st, ex.mod.types['%"struct.prophy::generated::' + et_.name + '"'], et_, addr, src)
 
 
 def object_profiles(t, cap=None):
@@ -470,7 +477,7 @@ def q_size_agreement(task):
         x = ex.new_obj(L.size_of(ty), 'message')
         st = L.State()
         src = ObjSource(task['lens'], task['pres'], task['arms'])
-        havoc(ex, st, ty, shape, x.base, src)
+        val = havoc(ex, st, ty, shape, x.base, src)
         st.pc.extend(src.constraints)
         r = ex.run('@gbs_' + name, [ex.ptr(x)], st.clone())
         if len(r) != 1 or r[0][2] is not None:
@@ -488,7 +495,17 @@ def q_size_agreement(task):
             viols.append(dict(cls='size', kind='fixed type: get_byte_size() %d != encoded_byte_size %d' % (gv, ebsv), site='get_byte_size', gbs=gv, ebs=ebsv))
         for e in task['ends']:
             out = ex.new_obj(gv, 'output[get_byte_size()=%d]' % gv)
-            for st3, w, v3 in ex.run('@enc_%s_%s' % (name, e), [ex.ptr(x), ex.ptr(out)], st.clone()):
+            st_e = st.clone()
+            ref = None
+            if task.get('canonical'):
+                for i in range(gv):
+                    st_e.cmem[out.base + i] = z3.BitVecVal(0, 8)      # zero-initialised like message::encode<E>()'s vector
+                ref = W.encode(shape, val, '>' if e == 'be' else '<', ops=X.Z3Ops)
+                if len(ref) != gv:
+                    viols.append(dict(cls='compat', kind='get_byte_size() is %d, the canonical encoding of this value has %d bytes' % (gv, len(ref)), site='get_byte_size',
+                                      gbs=gv, canonical=len(ref), endianness=e))
+                    ref = None
+            for st3, w, v3 in ex.run('@enc_%s_%s' % (name, e), [ex.ptr(x), ex.ptr(out)], st_e):
                 if v3 is not None:
                     viols.append(_viol(v3, None, cls='encode-' + v3.cls, gbs=gv, endianness=e))
                     continue
@@ -496,6 +513,14 @@ def q_size_agreement(task):
                 if m2 is not None:
                     viols.append(dict(cls='size', kind='encode<%s> returns %s but get_byte_size() is %d' % (e, m2.eval(w.e), gv), site='encode', gbs=gv,
                                       written=str(m2.eval(w.e)), endianness=e))
+                    continue
+                if ref is not None:
+                    diff = [ex.read8(st3, z3.BitVecVal(out.base + i, 64)) != ref[i] for i in range(gv)]
+                    m2 = ex.check(st3, z3.Or(*diff)) if diff else None
+                    if m2 is not None:
+                        got = [m2.eval(ex.read8(st3, z3.BitVecVal(out.base + i, 64)), model_completion=True).as_long() for i in range(gv)]
+                        viols.append(dict(cls='compat', kind='encode<%s> of the object differs from the canonical encoding of its value' % e, site='encode',
+                                          got_hex=''.join('%02x' % b for b in got), want_hex=''.join('%02x' % b for b in L.model_bytes(m2, ref)), endianness=e))
     except L.Unsupported as u:
         if viols:
             return [_result(task, ex, 'violated', 'then inconclusive: %s' % u, viols)]
@@ -532,7 +557,7 @@ def q_swap(task):
         for i, b in enumerate(be):
             st.cmem[obj.base + G + i] = b
         # expected end: for a greedy tail, the address of the outermost unlimited member
-        items, total = W.offsets(shape, v)
+        items, total = W.offsets(shape, v, ops=X.Z3Ops)
         claim_len = Lb
         last = W.strip(shape).fields[-1]
         unlimited = last.form == 'greedy' or (last.form == 'plain' and not last.bytes and W.type_layout(last.type)[2] == W.UNLIMITED)
